@@ -40,6 +40,8 @@ ALPHA = {
     'tuple': ((1, 2), (1, 3), (2, 1), 'x'),
     'obj': ('a', 1, None, (1, 2), 2.5),
     'date': (D('2020-01-01'), D('2020-01-02'), D('2019-12-31'), D('2021-01-01')),
+    'month': (D('2020-01'), D('2020-03'), D('2019-12'), D('2021-01')),
+    'year': (D('2020'), D('2022'), D('2019'), D('2021')),
 }
 
 
@@ -141,20 +143,20 @@ def obj_array(labels):
 
 
 def index_cls(kind):
-    return sf.IndexDate if kind == 'date' else sf.Index
+    return {'date': sf.IndexDate, 'month': sf.IndexYearMonth, 'year': sf.IndexYear}.get(kind, sf.Index)
 
 
 ROUTES = {
     'constructor(list)': lambda kind, labs: index_cls(kind)(list(labs)),
     'constructor(tuple)': lambda kind, labs: index_cls(kind)(tuple(labs)),
     'constructor(generator)': lambda kind, labs: index_cls(kind)(x for x in labs),
-    'constructor(object array)': lambda kind, labs: index_cls(kind)(obj_array(labs)) if kind != 'date' else sf.IndexDate(np.array(labs, dtype='datetime64[D]')),
+    'constructor(object array)': lambda kind, labs: index_cls(kind)(obj_array(labs)) if kind not in ('date', 'month', 'year') else index_cls(kind)(np.array(labs, dtype={'date': 'datetime64[D]', 'month': 'datetime64[M]', 'year': 'datetime64[Y]'}[kind])),
     'constructor(dict keys)': lambda kind, labs: index_cls(kind)(dict.fromkeys(labs).keys()) if distinct(labs) else index_cls(kind)(list(labs)),
     'from_labels': lambda kind, labs: index_cls(kind).from_labels(list(labs)),
     'constructor(Index)': lambda kind, labs: index_cls(kind)(index_cls(kind)(list(labs))),
-    'GO constructor': lambda kind, labs: (sf.IndexDateGO if kind == 'date' else sf.IndexGO)(list(labs)),
-    'Series index': lambda kind, labs: sf.Series(range(len(labs)), index=index_cls(kind)(list(labs)) if kind == 'date' else list(labs)).index,
-    'Frame columns': lambda kind, labs: sf.Frame(np.zeros((1, len(labs))), columns=index_cls(kind)(list(labs)) if kind == 'date' else list(labs)).columns,
+    'GO constructor': lambda kind, labs: {'date': sf.IndexDateGO, 'month': sf.IndexYearMonthGO, 'year': sf.IndexYearGO}.get(kind, sf.IndexGO)(list(labs)),
+    'Series index': lambda kind, labs: sf.Series(range(len(labs)), index=index_cls(kind)(list(labs)) if kind in ('date', 'month', 'year') else list(labs)).index,
+    'Frame columns': lambda kind, labs: sf.Frame(np.zeros((1, len(labs))), columns=index_cls(kind)(list(labs)) if kind in ('date', 'month', 'year') else list(labs)).columns,
     'pickle': lambda kind, labs: pickle.loads(pickle.dumps(index_cls(kind)(list(labs)))),
     'copy': lambda kind, labs: index_cls(kind)(list(labs)).copy(),
     'rename': lambda kind, labs: index_cls(kind)(list(labs)).rename('nm'),
@@ -176,12 +178,12 @@ DERIVE = {
     'difference(first)': (lambda ix: ix.difference(ix.iloc[:1]), None),
     'head(2)': (lambda ix: ix.head(2), lambda L: L[:2]),
     'tail(2)': (lambda ix: ix.tail(2), lambda L: L[-2:]),
-    'GO->static': (lambda ix: (sf.IndexDate if isinstance(ix, sf.IndexDate) else sf.Index)((sf.IndexDateGO if isinstance(ix, sf.IndexDate) else sf.IndexGO)(ix)), lambda L: L),
+    'GO->static': (lambda ix: (lambda go: go._IMMUTABLE_CONSTRUCTOR(go))(ix._MUTABLE_CONSTRUCTOR(ix)), lambda L: L),
 }
 
 
 def scope(tier):
-    return dict(maxlen=3 if tier == 'quick' else 4, depth=3 if tier == 'quick' else 5)
+    return dict(maxlen=3 if tier == 'quick' else 4, depth=3 if tier == 'quick' else 4)
 
 
 def cases(tier):
@@ -237,7 +239,7 @@ def run_construct(case, ctx):
                 ctx.violation(f'construct|{route}|{kind}|duplicate-labels-accepted', **info, got=list(ix.values))
                 continue
             absent = [a for a in alpha if not any(pyset_key(a) == pyset_key(l) for l in labs)] + ['__absent__']
-            check_index(ctx, f'construct|{route}|{kind}', ix, labs, absent if kind != 'date' else absent[:-1] + [D('1999-01-01')], info)
+            check_index(ctx, f'construct|{route}|{kind}', ix, labs, absent if kind not in ('date', 'month', 'year') else absent[:-1] + [D('1999-01-01').astype({'date': 'datetime64[D]', 'month': 'datetime64[M]', 'year': 'datetime64[Y]'}[kind])], info)
     ctx.sample({'family': 'construct', 'kind': kind, 'route': route}, limit=1)
 
 
